@@ -35,6 +35,10 @@ func NewExprCondition(expression string) (Condition, error) {
 			if len(params) != 2 {
 				return false, fmt.Errorf("like_match function requires 2 parameters")
 			}
+			if params[0] == nil {
+				// NULL LIKE p is not true; an error here would abort the whole predicate (x LIKE 'a_' OR x IS NULL)
+				return false, nil
+			}
 			text, ok1 := params[0].(string)
 			pattern, ok2 := params[1].(string)
 			if !ok1 || !ok2 {
